@@ -220,7 +220,7 @@ func TestPropListenerReplyCookies(t *testing.T) {
 					if err := e.Decode(pt[pos+4 : pos+l]); err != nil {
 						t.Fatalf("fresh cookie does not decode: %v", err)
 					}
-					k, ok := provider.Lookup(e.ID)
+					k, ok := lookup(provider, e.ID)
 					if !ok {
 						t.Fatalf("fresh cookie names key %d, which is not valid (history %v)", e.ID, hist)
 					}
@@ -242,4 +242,15 @@ func TestPropListenerReplyCookies(t *testing.T) {
 			rec.Eval(keyAge > renewal, ev.Hash(fmt.Sprint(hist)), func() any { return hist })
 		}
 	})
+}
+
+// lookup finds the key a cookie's 16-bit identifier names the way the listeners do (Provider.Lookup where the tree
+// has it, else Provider.Get of the identifier).
+func lookup(p *ntske.Provider, id uint16) (ntske.Key, bool) {
+	if l, has := any(p).(interface {
+		Lookup(uint16) (ntske.Key, bool)
+	}); has {
+		return l.Lookup(id)
+	}
+	return p.Get(int(id))
 }
